@@ -66,7 +66,7 @@ model's COBS decoder, then the size test and field extraction translated from `s
 encoding of every well-formed frame -/
 theorem C09_src_fromUsart_toUsart (f : Frame) (h : f.WF) :
     Src.fromUsart (Cobs.encode (usartBody f)) = .ok (normKind f) := by
-  rw [Ross.src_fromUsart_eq]; exact Ross.fromUsart_toUsart f h
+  exact ((Ross.src_fromUsart_agrees _).1 _).2 (Ross.fromUsart_toUsart f h)
 
 /-- **C09's encode side about the encoder as it reads now**: `Src.toUsart` is `Frame::to_usart_frame` translated from
 `src/frame.rs` on every run (the five header bytes updated as the source updates them, casts keeping the low 8 bits, the copy of
@@ -87,7 +87,6 @@ theorem C09_src_roundtrip (f : Frame) (h : f.WF) :
     simp [hl]
   rw [Ross.src_toUsart_eq, hu]
   simp only []
-  rw [Ross.src_fromUsart_eq]
-  exact Ross.fromUsart_toUsart f h
+  exact ((Ross.src_fromUsart_agrees _).1 _).2 (Ross.fromUsart_toUsart f h)
 
 end Ross.Props
